@@ -22,3 +22,26 @@ Definition replay (comp : comp_prog) (q : state) (t : tape) (tq : state) (tt : t
   | inr b => b
   | inl _ => false
   end.
+
+(** Three-valued variant for the checks: tells a definite failure (the
+    machine halts or spins out before meeting the target) from an exhausted
+    budget. *)
+Inductive replay_res := RpReached (cycles : N) | RpStopped (cycles : N) | RpFuel.
+
+Definition replay3_body (comp : comp_prog) (tq : state) (tt : tape) (s : state * tape * N)
+  : (state * tape * N) + replay_res :=
+  let '(q, t, n) := s in
+  if (0 <? n) && (q =? tq) && tape_eqb t tt then inr (RpReached n) else
+  match cp_get comp (q, scan t) with
+  | None => inr (RpStopped n)
+  | Some (color, sh, q') =>
+      let same := q =? q' in
+      if same && at_edge t sh then inr (RpStopped n)
+      else inl (q', fst (step t sh color same), n + 1)
+  end.
+
+Definition replay3 (comp : comp_prog) (q : state) (t : tape) (tq : state) (tt : tape) (fuel : N) : replay_res :=
+  match for_upto fuel (replay3_body comp tq tt) (q, t, 0) with
+  | inr r => r
+  | inl _ => RpFuel
+  end.
